@@ -15,6 +15,7 @@ CONSTANTS
   UpAliasByValue = %(byvalue)s
   RequeueOnDeadLink = %(requeue)s
   Bogus = %(bogus)s
+  ReleaseOnCloseMeta = %(rel)s
 %(view)s
 INVARIANTS %(invs)s
 %(constraint)s
@@ -28,11 +29,11 @@ def q(xs):
 
 
 def write_cfg(name, ups=("X", "Y"), prereg="PreRegA", maxc=3, readers=("R1",), cap=2, faults=0, byvalue=True, requeue=False,
-              bogus=True, view=True, invs=INVS, gen=False, dedup=True):
+              bogus=True, view=True, invs=INVS, gen=False, dedup=True, release_on_close_meta=False):
     with open(os.path.join(SPEC, name), "w") as f:
         f.write(CFG % dict(ups=q(ups), prereg=prereg, maxc=maxc, readers=q(readers), cap=cap, faults=faults,
                            byvalue="TRUE" if byvalue else "FALSE", requeue="TRUE" if requeue else "FALSE",
-                           bogus="TRUE" if bogus else "FALSE", dedup="TRUE" if dedup else "FALSE", view="VIEW View" if view else "", invs=invs,
+                           bogus="TRUE" if bogus else "FALSE", dedup="TRUE" if dedup else "FALSE", rel="TRUE" if release_on_close_meta else "FALSE", view="VIEW View" if view else "", invs=invs,
                            constraint="CONSTRAINT GenPrint" if gen else ""))
     return name
 
